@@ -72,7 +72,21 @@ func propertyTable() map[string]PropertyCfg {
 		},
 		"C08": {ID: "C08",
 			Sweep: &SweepCfg{
-				Funcs: func(p *Program) []string { return callTree(p, entryPoints(p)) },
+				Parts: []string{"rest"},
+				Funcs: func(p *Program) []string {
+					top, _ := sweepHalves(p)
+					isTop := map[string]bool{}
+					for _, k := range top {
+						isTop[k] = true
+					}
+					var out []string
+					for _, k := range callTree(p, entryPoints(p)) {
+						if !isTop[k] {
+							out = append(out, k) // the entry points themselves are swept by C18's command
+						}
+					}
+					return out
+				},
 				Select: func(o *Obligation) bool {
 					switch o.Kind {
 					case "assigns", "map-order", "clock", "global-write":
@@ -92,15 +106,16 @@ func propertyTable() map[string]PropertyCfg {
 		},
 		"C18": {ID: "C18",
 			Sweep: &SweepCfg{
-				Funcs: func(p *Program) []string { return propFuncs(p, "C18") },
+				Parts: []string{"top"},
+				Funcs: func(p *Program) []string { top, _ := sweepHalves(p); return top },
 				Select: func(o *Obligation) bool {
 					switch o.Kind {
-					case "post@return":
-						return strings.Contains(o.Name, "C18") || strings.Contains(o.Name, "fault-reported") || strings.HasPrefix(o.Name, "readNBytes#") || strings.HasPrefix(o.Name, "newScanner#")
-					case "inv-entry", "inv-step", "pre@call":
-						return true
+					case "assigns", "map-order", "clock", "global-write":
+						return false // decided under C19 / C20
 					}
-					return false
+					// the fault-reporting postconditions, their invariants, and (C08's share for the
+					// entry points) every panic site of these functions
+					return true
 				},
 				Unclaimed: sweepUnclaimed,
 			},
@@ -181,7 +196,7 @@ func propertyTable() map[string]PropertyCfg {
 // (accumulators grown inside nested loops, byte buffers built by several helpers). They are
 // reported in the evidence as undecided, never as proved, and never as violations.
 var sweepUnclaimed = map[string]string{
-	"teletextCharacterDecoder.decode#index[d.c[i-0x20]]":  "page rows hold parity-stripped bytes (< 128, astikit.ByteParity), so the index stays below 96; carrying that fact from parsePacketData through the packet buffer to the row parser needs a two-level quantified invariant over map-held slices that the solvers stop discharging once contract calls havoc their frames: not decided (the index was proved before the frame treatment was made sound; see DESIGN.md section 4)",
-	"ReadFromTeletext#inv-step[loop1:inv3]":               "'the collected pages are non-nil' across the call of process: process writes the pointer-element heap only inside the buffer's own done-pages array, but its inferred frame is lost at its internal loop (no parameter-relative loop frame candidate yet): not decided; the obligations that depend on it (the receiver of page.parse) are proved under this invariant",
-	"ReadFromTeletext#inv-entry[loop2:inv2]":              "same invariant at the entry of the page-parsing loop: not decided",
+	"teletextCharacterDecoder.decode#index[d.c[i-0x20]]": "page rows hold parity-stripped bytes (< 128, astikit.ByteParity), so the index stays below 96; carrying that fact from parsePacketData through the packet buffer to the row parser needs a two-level quantified invariant over map-held slices that the solvers stop discharging once contract calls havoc their frames: not decided (the index was proved before the frame treatment was made sound; see DESIGN.md section 4)",
+	"ReadFromTeletext#inv-step[loop1:inv3]":              "'the collected pages are non-nil' across the call of process: process writes the pointer-element heap only inside the buffer's own done-pages array, but its inferred frame is lost at its internal loop (no parameter-relative loop frame candidate yet): not decided; the obligations that depend on it (the receiver of page.parse) are proved under this invariant",
+	"ReadFromTeletext#inv-entry[loop2:inv2]":             "same invariant at the entry of the page-parsing loop: not decided",
 }
